@@ -34,6 +34,8 @@ type loopInfo struct {
 	modAll   bool
 	allocs   bool
 	line     int
+	keeps    []string   // struct types whose fields survive the havoc (havoccall ... keeps T)
+	modAllOK bool       // modAll comes from a havoccall abstraction: havoc the whole heap at the head
 	strIter  *ssa.Range // string range loop: the iterator advanced at the head
 	strKey   *ssa.Alloc
 }
@@ -525,6 +527,17 @@ func (x *Exec) callMods(c *ssa.CallCommon, li *loopInfo, seen map[*ssa.Function]
 		}
 		return
 	}
+	if c.IsInvoke() {
+		switch c.Method.FullName() {
+		case "(io.Reader).Read":
+			li.modHeap["E:byte"] = true
+			return
+		case "(io.Writer).Write", "(io.StringWriter).WriteString", "(zombiezen.com/go/commonmark.ReferenceMatcher).MatchReference", "(error).Error":
+			return
+		}
+		li.modAll = true
+		return
+	}
 	callee := c.StaticCallee()
 	if callee == nil {
 		if mc, ok := c.Value.(*ssa.MakeClosure); ok {
@@ -543,6 +556,27 @@ func (x *Exec) callMods(c *ssa.CallCommon, li *loopInfo, seen map[*ssa.Function]
 			return
 		}
 		li.modAll = true
+		return
+	}
+	if x.havocHere(callee) {
+		keeps := x.havocKeeps(callee)
+		if !li.modAll {
+			li.keeps = keeps
+		} else {
+			// several abstracted calls: keep only what all of them keep
+			var both []string
+			for _, a := range li.keeps {
+				for _, b := range keeps {
+					if a == b {
+						both = append(both, a)
+					}
+				}
+			}
+			li.keeps = both
+		}
+		li.modAll = true
+		li.modAllOK = true
+		li.allocs = true
 		return
 	}
 	if fc := x.prog.contractFor(callee); fc != nil && !fc.Inline && !x.inlineHere(fc) {
@@ -823,6 +857,19 @@ func (li *loopInfo) hasByteAppend() bool {
 	return false
 }
 
+func (li *loopInfo) hasFieldStore() bool {
+	for b := range li.blocks {
+		for _, in := range b.Instrs {
+			if s, ok := in.(*ssa.Store); ok {
+				if _, ok := s.Addr.(*ssa.FieldAddr); ok {
+					return true
+				}
+			}
+		}
+	}
+	return false
+}
+
 func (li *loopInfo) hasDynCall() bool {
 	for b := range li.blocks {
 		for _, in := range b.Instrs {
@@ -838,7 +885,7 @@ func (li *loopInfo) hasDynCall() bool {
 
 func (x *Exec) havocLoop(st *State, li *loopInfo) {
 	fr := st.top()
-	if li.modAll {
+	if li.modAll && !li.modAllOK {
 		x.fail("loop %d calls code with unknown effects", li.ordinal)
 	}
 	var allocs []*ssa.Alloc
@@ -859,7 +906,7 @@ func (x *Exec) havocLoop(st *State, li *loopInfo) {
 		}
 		fr.cells[a] = old
 	}
-	if st.ghost != nil && (li.hasByteAppend() || li.hasDynCall()) {
+	if st.ghost != nil && (li.hasByteAppend() || li.hasDynCall() || (x.fc != nil && len(x.fc.StoreGhost) > 0 && li.hasFieldStore())) {
 		var gn []string
 		for k := range st.ghost {
 			gn = append(gn, k)
@@ -910,6 +957,9 @@ func (x *Exec) havocLoop(st *State, li *loopInfo) {
 		nw := Var(x.freshName("WM"), SInt)
 		st.assume(Le(st.wm, nw))
 		st.wm = nw
+	}
+	if li.modAll && li.modAllOK {
+		x.havocAll(st, li.keeps...)
 	}
 }
 
@@ -1003,7 +1053,7 @@ func (x *Exec) run(st *State) {
 			}
 			fr.defers = append(fr.defers, fv)
 		case *ssa.Store:
-			if x.fc != nil && len(x.fc.StoreSites) > 0 && len(st.frames) == 1 {
+			if x.fc != nil && (len(x.fc.StoreSites) > 0 || len(x.fc.StoreReq) > 0 || len(x.fc.StoreGhost) > 0 || len(x.fc.StoreUse) > 0) && len(st.frames) == 1 {
 				x.checkStoreSite(st, i)
 			}
 			l := x.addrOf(st, i.Addr, i.Pos())
@@ -1038,6 +1088,32 @@ func (x *Exec) checkStoreSite(st *State, i *ssa.Store) {
 		return
 	}
 	fname := stt.Field(fa.Field).Name()
+	if len(x.fc.StoreReq) > 0 || len(x.fc.StoreGhost) > 0 || len(x.fc.StoreUse) > 0 {
+		n := x.storeOrdinal(i, fa)
+		key := fmt.Sprintf("%s#%d", fname, n)
+		if len(x.fc.StoreReq[key]) > 0 || len(x.fc.StoreGhost[key]) > 0 || len(x.fc.StoreUse[key]) > 0 {
+			env := x.contractEnv(st, nil, st.entry)
+			x.bindLocals(env, st.top(), nil)
+			env.vars["$new"] = x.value(st, i.Val)
+			for _, u := range x.fc.StoreUse[key] {
+				if u.Kind != "call" || x.prog.contracts.Lemmas[u.Str] == nil {
+					x.fail("site store %s: use needs a lemma application", key)
+				}
+				st.assume(env.evalBool(u))
+			}
+			for _, cl := range x.fc.StoreReq[key] {
+				x.assert(st, fmt.Sprintf("site:store:%s:%s", key, cl.Label), env.evalBool(cl.Expr), cl.Text, i.Pos())
+			}
+			for _, g := range x.fc.StoreGhost[key] {
+				if _, ok := st.ghost[g.Name]; !ok {
+					x.fail("ghost update of undeclared ghost %s", g.Name)
+				}
+				nv := intSV(env.evalInt(g.Expr), types.Typ[types.Int])
+				st.ghost[g.Name] = nv
+				env.vars[g.Name] = nv
+			}
+		}
+	}
 	allowed, ok := x.fc.StoreSites[fname]
 	if !ok {
 		return
@@ -1069,21 +1145,23 @@ func (x *Exec) checkStoreSite(st *State, i *ssa.Store) {
 			}
 		}
 	}
+	n := x.storeOrdinal(i, fa)
+	x.assert(st, fmt.Sprintf("site:store:%s#%d", fname, n), BoolC(okStore), "the output field "+fname+" is only extended by "+strings.Join(allowed, ", ")+" applied to its current value (here: "+what+")", i.Pos())
+}
+
+// storeOrdinal numbers the stores to the same field inside the function in source order.
+func (x *Exec) storeOrdinal(i *ssa.Store, fa *ssa.FieldAddr) int {
 	n := 0
 	for _, b := range i.Parent().Blocks {
 		for _, in := range b.Instrs {
-			if s2, ok := in.(*ssa.Store); ok {
-				if s2 == i {
-					goto done
-				}
-				if f2, ok := s2.Addr.(*ssa.FieldAddr); ok && f2.Field == fa.Field {
+			if s2, ok := in.(*ssa.Store); ok && s2 != i {
+				if f2, ok := s2.Addr.(*ssa.FieldAddr); ok && f2.Field == fa.Field && types.Identical(f2.X.Type(), fa.X.Type()) && s2.Pos() < i.Pos() {
 					n++
 				}
 			}
 		}
 	}
-done:
-	x.assert(st, fmt.Sprintf("site:store:%s#%d", fname, n), BoolC(okStore), "the output field "+fname+" is only extended by "+strings.Join(allowed, ", ")+" applied to its current value (here: "+what+")", i.Pos())
+	return n
 }
 
 // ptrRoot: in naive form a parameter or local pointer is re-loaded from its cell before every use;
@@ -1155,9 +1233,25 @@ func (x *Exec) checkFrame(st *State) {
 	if x.fc == nil {
 		return
 	}
+	every := false
+	for _, m := range x.fc.Modifies {
+		if m == "everything" {
+			every = true
+		}
+	}
+	if st.havocked {
+		x.assert(st, "frame:everything", BoolC(every), "a function that calls abstracted (havoccall) code must declare modifies everything", token.NoPos)
+		return
+	}
+	if every {
+		return
+	}
 	allowed := x.prog.modifiesSpec(x, x.fn, x.fc)
 	var keys []string
 	for k := range st.heap {
+		if k == epochKey {
+			continue
+		}
 		keys = append(keys, k)
 	}
 	sort.Strings(keys)
